@@ -80,7 +80,8 @@ class C12(E1Check):
             "(flush_on_insert=True, auto_index on/off); for every operation every raw-I/O step boundary is a crash point; every "
             "distinct crash image is opened by a fresh TinyFlux and must decode to the contents before or after the operation "
             "(insert_multiple: old + prefix); an interrupted insert must keep the old bytes as a prefix. distinct_nontrivial = "
-            "distinct (state, operation, image) triples whose image differs from both the pre- and the post-operation file"
+            "distinct (state, operation, crash image) triples recovered and judged (images_neither_pre_nor_post_bytes counts those "
+            "whose bytes differ from both the pre- and the post-operation file)"
         )
 
     def configs(self):
@@ -148,8 +149,9 @@ class C12(E1Check):
             if img is None:
                 out.append(viol("file-exists", f"C12|{k}|after={stepkind}|file-missing", observed=None, expected="a file"))
                 continue
+            counters["__distinct_nontrivial"] += 1
             if img not in (T.pre_bytes, T.post_bytes):
-                counters["__distinct_nontrivial"] += 1
+                counters["images_neither_pre_nor_post_bytes"] += 1
             r = recover(img)
             if r[0] == "exc":
                 out.append(viol("recoverable", f"C12|{k}|after={stepkind}|cannot-open", observed=r[1], expected=allowed[:2],
@@ -168,6 +170,7 @@ class C12(E1Check):
             "evaluations": int(c.get("evaluations", 0)) or 1,
             "distinct_nontrivial": int(c.get("__distinct_nontrivial", 0)),
             "crash_points": int(c.get("crash_points", 0)),
+            "images_neither_pre_nor_post_bytes": int(c.get("images_neither_pre_nor_post_bytes", 0)),
             "real_kill_conformance_runs": self.kills,
             "traces_validated_against_impl": self.kills,
         }
